@@ -9,12 +9,30 @@ impl   : pysph.solver.application.Application.run(argv) on small problems
          12 steps, --reorder-freq 2..6 so that several re-orders happen INSIDE
          the time loop: GTVFIntegrator.one_timestep starts with
          compute_accelerations(0, update_nnps=False), i.e. it queries the NNPS
-         exactly as the previous step and its re-order left it)
+         exactly as the previous step and its re-order left it) and
+         rarefy (NON-periodic disc of gas whose centre rarefies, adaptive
+         smoothing length written the way the gas-dynamics / shallow-water
+         schemes write it: h is recomputed from the density inside groups
+         declared update_nnps=True - once a plain group, once a group made of
+         sub-groups, the two places of acceleration_eval_cython.mako that emit
+         the NNPS refresh; the density is summed at three kernel widths per
+         step (0.8, 1.0, 1.3 times hfac*sqrt(m/rho): stepper, first group,
+         second group), so max(h) grows by >= 25% inside EACH of the two
+         groups of every step, and over the run as the centre thins; 6 steps;
+         the state carries the neighbour count of the last summation and the
+         counts/densities accumulated over all summations).  Here
+         the algorithms that bin with radius_scale*max(h) (ll, box, sh, esh,
+         ci, sfc, strat_*) are compared with the octrees, which do not use the
+         cell size: the reference run of this problem is --nnps tree
 oracle : the property statement itself, evaluated on the final particle
          arrays matched by gid:
-           * every configuration == the plain baseline (--nnps ll, no cache, no
-             OpenMP, no re-ordering, unsorted) per particle within
+           * every configuration == the plain baseline (--nnps ll - for rarefy
+             --nnps tree -, no cache, no OpenMP, no re-ordering, unsorted) per
+             particle within
              1e-12 * (magnitude scale of the property)        [summation order]
+           * rarefy: additionally every pair of configurations with each other
+           * a configuration whose run does not complete (exception, SIGSEGV) is
+             a failure of the property for that configuration
            * all --sort-gids configurations are bit-identical to each other
              across nnps x cache x openmp x threads (x reorder: the harness
              assigns unique gids, so the sort key travels with the particle)
@@ -49,8 +67,26 @@ PROBLEMS = ('wall', 'block', 'periodic')
 # re-order) left it.  Needs a multi-step history with re-orders inside it.
 HISTORY_PROBLEMS = ('gtvf',)
 GTVF_STEPS = 12
+# 'rarefy': h changes (and max(h) grows) INSIDE update_nnps=True groups of a
+# non-periodic problem: the NNPS refresh emitted by the template after such a
+# group must also refresh the cell size (DomainManager.update), which only the
+# binning algorithms use.  All binning algorithms share that input, so the
+# reference run of this problem is an octree.
+RAREFY_STEPS = 6
+RAREFY_DX = 0.05
+RAREFY_HFAC = 1.2
+# multiples of hfac*sqrt(m/rho) h is set to by: the stepper (after the move),
+# the plain update_nnps group, the update_nnps group made of sub-groups
+RAREFY_WIDTHS = (0.8, 1.0, 1.3)
+RAREFY_DT = 0.1
+RAREFY_RATE = 2.5
+GRID_BASED = ('ll', 'box', 'sh', 'esh', 'ci', 'sfc')
+TREE_BASED = ('tree', 'comp_tree')
+STRATIFIED = ('strat_hash', 'strat_sfc')
+BASE_NNPS = {'rarefy': 'tree'}       # default: 'll'
+PAIRWISE = ('rarefy',)               # also compared with each other
 MULTI_ARRAY = {'wall': True, 'block': False, 'periodic': False, 'tie': True,
-               'gtvf': False}
+               'gtvf': False, 'rarefy': False}
 HERE = os.path.abspath(__file__)
 
 
@@ -155,6 +191,26 @@ def make_arrays(problem, seed):
                                 m=dx * dx * rho0 * (1.0 + _jitter(rng, n * n, 0.01)),
                                 rho=rho0 * np.ones_like(x), u=u, v=v, p=p)
         arrs = [fl]
+    elif problem == 'rarefy':
+        # 2D disc of gas in free space (no domain, no ghosts), stored in a
+        # scrambled order.  The centre is pushed outwards, the rim is at rest:
+        # the centre rarefies, so the density-based smoothing length of the
+        # particles with the largest h keeps growing.
+        dx = RAREFY_DX
+        g = np.mgrid[-1:1 + dx / 2:dx, -1:1 + dx / 2:dx].reshape(2, -1)
+        keep = g[0] * g[0] + g[1] * g[1] < 1.0
+        x, y = g[0][keep], g[1][keep]
+        n = x.size
+        perm = rng.permutation(n)
+        x = (x + _jitter(rng, n, 0.1 * dx))[perm]
+        y = (y + _jitter(rng, n, 0.1 * dx))[perm]
+        r = np.sqrt(x * x + y * y)
+        f = RAREFY_RATE * np.clip((0.9 - r) / 0.6, 0.0, 1.0)
+        fl = get_particle_array(name='fluid', x=x, y=y, m=dx * dx, rho=1.0,
+                                h=RAREFY_HFAC * dx, u=f * x, v=f * y)
+        for extra in ('nn', 'nnsum', 'rhosum'):
+            fl.add_property(extra)
+        arrs = [fl]
     else:
         raise SystemExit('unknown problem %r' % problem)
     return arrs
@@ -202,6 +258,56 @@ def _tie_classes():
     return _TIE[0]
 
 
+_RAREFY = []
+
+
+def _rarefy_classes():
+    if _RAREFY:
+        return _RAREFY[0]
+    from pysph.sph.equation import Equation
+    from pysph.sph.integrator_step import IntegratorStep
+
+    class C05SumDensity(Equation):
+        """summation density and the (integer valued) neighbour count; nnsum
+        and rhosum accumulate them over all evaluations of the run, so a pair
+        missed in ANY evaluation stays visible in the final state"""
+        def initialize(self, d_idx, d_rho, d_nn):
+            d_rho[d_idx] = 0.0
+            d_nn[d_idx] = 0.0
+
+        def loop(self, d_idx, s_idx, d_rho, d_nn, d_nnsum, s_m, WIJ):
+            d_rho[d_idx] += s_m[s_idx] * WIJ
+            d_nn[d_idx] += 1.0
+            d_nnsum[d_idx] += 1.0
+
+        def post_loop(self, d_idx, d_rho, d_rhosum):
+            d_rhosum[d_idx] += d_rho[d_idx]
+
+    class C05AdaptH(Equation):
+        """h_i = hfac*sqrt(m_i/rho_i) (2D), as the gas-dynamics schemes do"""
+        def __init__(self, dest, sources, hfac):
+            self.hfac = hfac
+            super(C05AdaptH, self).__init__(dest, sources)
+
+        def initialize(self, d_idx, d_h, d_m, d_rho):
+            d_h[d_idx] = self.hfac * sqrt(d_m[d_idx] / d_rho[d_idx])  # noqa: F821
+
+    class C05MoveStep(IntegratorStep):
+        """move with the (constant) particle velocity; start the next step
+        with the narrow kernel (the integrator refreshes domain and NNPS
+        itself after the stage and before the next evaluation)"""
+        def __init__(self, hfac):
+            self.hfac = hfac
+
+        def stage1(self, d_idx, d_x, d_y, d_u, d_v, d_h, d_m, d_rho, dt):
+            d_x[d_idx] += dt * d_u[d_idx]
+            d_y[d_idx] += dt * d_v[d_idx]
+            d_h[d_idx] = self.hfac * sqrt(d_m[d_idx] / d_rho[d_idx])  # noqa: F821
+
+    _RAREFY.append((C05SumDensity, C05AdaptH, C05MoveStep))
+    return _RAREFY[0]
+
+
 def make_app(problem, seed, outdir, assign_gid=True):
     from pysph.solver.application import Application
     from pysph.sph.scheme import WCSPHScheme, TVFScheme
@@ -213,6 +319,8 @@ def make_app(problem, seed, outdir, assign_gid=True):
                 for pa in arrs:
                     pa.add_property('acc')
                     pa.add_property('cnt')
+            elif problem == 'rarefy':
+                pass
             else:
                 self.scheme.setup_properties(arrs)
             if assign_gid:
@@ -267,6 +375,36 @@ def make_app(problem, seed, outdir, assign_gid=True):
                 from pysph.base.nnps import DomainManager
                 return DomainManager(xmin=0.0, xmax=1.0, ymin=0.0, ymax=1.0,
                                      periodic_in_x=True, periodic_in_y=True)
+        elif problem == 'rarefy':
+            def create_solver(self):
+                from pysph.base.kernels import CubicSpline
+                from pysph.sph.integrator import EulerIntegrator
+                from pysph.solver.solver import Solver
+                _, _, Move = _rarefy_classes()
+                integ = EulerIntegrator(
+                    fluid=Move(RAREFY_HFAC * RAREFY_WIDTHS[0]))
+                return Solver(kernel=CubicSpline(dim=2), dim=2,
+                              integrator=integ, dt=RAREFY_DT, tf=100.0)
+
+            def create_equations(self):
+                from pysph.sph.equation import Group
+                Rho, AdaptH, _ = _rarefy_classes()
+                hf1 = RAREFY_HFAC * RAREFY_WIDTHS[1]
+                hf2 = RAREFY_HFAC * RAREFY_WIDTHS[2]
+                return [
+                    # plain group that changes h: template do_group site
+                    Group(equations=[AdaptH('fluid', None, hf1)],
+                          update_nnps=True, name='c05_adapt_h'),
+                    Group(equations=[Rho('fluid', ['fluid'])],
+                          name='c05_density'),
+                    # group made of sub-groups that changes h: the other site
+                    Group(equations=[
+                        Group(equations=[AdaptH('fluid', None, hf2)],
+                              name='c05_adapt_h_sub')],
+                        update_nnps=True, name='c05_adapt_h_again'),
+                    Group(equations=[Rho('fluid', ['fluid'])],
+                          name='c05_density_again'),
+                ]
         elif problem == 'tie':
             def create_solver(self):
                 from pysph.base.kernels import CubicSpline
@@ -413,6 +551,11 @@ def cfg(problem, nnps='ll', cache=False, openmp=False, threads=1, reorder=None,
             'assign_gid': bool(assign_gid)}
 
 
+def base_cfg(problem, steps):
+    """the plain reference configuration of a problem"""
+    return cfg(problem, BASE_NNPS.get(problem, 'll'), steps=steps)
+
+
 def cname(c):
     return '%s/%s%s%s/%s/r%s%s%s%s' % (
         c['problem'], c['nnps'], '+cache' if c['cache'] else '',
@@ -512,6 +655,9 @@ SCALES = {
     'periodic': dict(c0=10.0, rho0=1.0, L=1.0, dx=1.0 / 16),
     'tie': dict(c0=1.0, rho0=1.0, L=1.0, dx=0.05),
     'gtvf': dict(c0=GTVF_C0, rho0=1.0, L=1.0, dx=1.0 / GTVF_N),
+    # (the neighbour count 'nn' is an integer below 2^53: scale = its largest
+    # value, i.e. it has to agree exactly)
+    'rarefy': dict(c0=RAREFY_RATE, rho0=1.0, L=1.0, dx=RAREFY_DX),
 }
 
 
@@ -549,6 +695,7 @@ def compare(problem, A, B, exact):
         return {'what': 'property sets differ',
                 'detail': sorted(set(ka) ^ set(kb))}
     worst = None
+    first = None
     for k in ka:
         a, b = A[k], B[k]
         if a.shape != b.shape:
@@ -580,14 +727,23 @@ def compare(problem, A, B, exact):
             m = float(d.max()) if d.size else 0.0
             if m > 1e-12 * sc:
                 i = int(np.unravel_index(np.argmax(d), d.shape)[0])
-                return {'what': 'differs beyond summation order', 'prop': k,
-                        'row': i,
-                        'gid': int(A[k.split(':')[0] + ':gid'][i]),
-                        'a': repr(a[i].tolist()), 'b': repr(b[i].tolist()),
-                        'maxdiff': m, 'scale': sc, 'tol': 1e-12 * sc}
+                rows = int((d.reshape(d.shape[0], -1).max(axis=1)
+                            > 1e-12 * sc).sum())
+                if first is None:
+                    first = {'what': 'differs beyond summation order',
+                             'prop': k, 'row': i,
+                             'gid': int(A[k.split(':')[0] + ':gid'][i]),
+                             'a': repr(a[i].tolist()),
+                             'b': repr(b[i].tolist()),
+                             'maxdiff': m, 'scale': sc, 'tol': 1e-12 * sc,
+                             'particles': '%d of %d' % (rows, d.shape[0]),
+                             'all_props_beyond_tol': {}}
+                first['all_props_beyond_tol'][k] = \
+                    '%d particles, max %.3g' % (rows, m)
+                continue
             if sc > 0 and (worst is None or m / sc > worst):
                 worst = m / sc
-    return None
+    return first
 
 
 def differs_in(c, base):
@@ -663,12 +819,21 @@ def judge(results, R, seed):
                     key = 'C05:inherits-C01:%s' % c['nnps']
                 else:
                     key = 'C05:run-failed:%s:%s' % (problem, c['nnps'])
+                R.count('run-failed:%s:%s' % (problem, c['nnps']))
                 R.prop_fail(key, {'cfg': c, 'seed': seed},
-                            'Application.run completes and yields a state',
-                            'exit %s: %s' % (r['rc'], r['log'][-600:]))
+                            'Application.run completes and yields a state '
+                            '(as it does with the other --nnps values)',
+                            'exit %s%s: %s' % (
+                                r['rc'], _signame(r['rc']), r['log'][-600:]))
         gidful = [r for r in ok if r['cfg']['assign_gid']]
         base = [r for r in gidful if r['cfg'] == dict(
-            cfg(problem, steps=r['cfg']['steps']))]
+            base_cfg(problem, r['cfg']['steps']))]
+        if not base and problem in PAIRWISE and gidful:
+            # the reference run itself failed (reported above): the others
+            # still have to agree with each other
+            R.note('no baseline run for %s: comparing with %s'
+                   % (problem, cname(gidful[0]['cfg'])))
+            base = [gidful[0]]
         if not base:
             R.note('no baseline run for %s' % problem)
             continue
@@ -676,11 +841,13 @@ def judge(results, R, seed):
         sorted_ref = None
         for r in gidful:
             c = r['cfg']
-            if c['sort'] and c['nnps'] == 'll' and not c['reorder'] and \
+            if c['sort'] and c['nnps'] == BASE_NNPS.get(problem, 'll') and \
+                    not c['reorder'] and \
                     not c['cache'] and c['openmp'] is False:
                 sorted_ref = r
                 break
         seen = {}
+        off_base = set()
         for r in gidful:
             c = r['cfg']
             i = r['info']
@@ -706,6 +873,7 @@ def judge(results, R, seed):
             if r is not base:
                 d = compare(problem, base['data'], r['data'], exact=False)
                 if d:
+                    off_base.add(id(r))
                     R.prop_fail(fail_key(c, base['cfg'], 'differs'),
                                 {'cfg': c, 'baseline': base['cfg'], 'seed': seed},
                                 'same state per particle (by gid) up to '
@@ -745,6 +913,25 @@ def judge(results, R, seed):
             nontrivial = bool(differs_in(c, base['cfg'])) or c['rep'] > 0
             R.case(cname(c), nontrivial,
                    {'cfg': cname(c), 'info': i, 'wall': round(r['wall'], 1)})
+        # (1b) with each other (those that differ from the reference run are
+        # already reported, with the reference as the other side)
+        if problem in PAIRWISE:
+            rest = [r for r in gidful if r is not base and
+                    id(r) not in off_base]
+            for ai in range(len(rest)):
+                for bi in range(ai + 1, len(rest)):
+                    ra, rb = rest[ai], rest[bi]
+                    if dict(ra['cfg'], rep=0) == dict(rb['cfg'], rep=0):
+                        continue
+                    R.count('pairwise:' + problem)
+                    d = compare(problem, ra['data'], rb['data'], exact=False)
+                    if d:
+                        R.prop_fail(
+                            fail_key(rb['cfg'], ra['cfg'], 'differs'),
+                            {'cfg': rb['cfg'], 'baseline': ra['cfg'],
+                             'seed': seed},
+                            'same state per particle (by gid) up to '
+                            'summation order (1e-12 relative)', d)
         # runs without assigned gids (all gid = UINT_MAX, the serial default):
         # neighbours are then sorted by local index
         nog = [r for r in ok if not r['cfg']['assign_gid']]
@@ -764,6 +951,16 @@ def judge(results, R, seed):
                             {'cfg': r['cfg'], 'baseline': ref['cfg'], 'seed': seed},
                             'same state per particle (default gids, no '
                             're-ordering, matched by index)', d)
+
+def _signame(rc):
+    if isinstance(rc, int) and rc < 0 and rc != -999:
+        import signal
+        try:
+            return ' (%s)' % signal.Signals(-rc).name
+        except ValueError:
+            return ' (signal %d)' % -rc
+    return ''
+
 
 def _by_index(D):
     out = {}
@@ -902,7 +1099,7 @@ def quick_cfgs(rng):
          cfg('tie', 'sh', sort=True, cache=True, steps=1),
          cfg('tie', 'll', sort=True, cache=True, reorder=1, steps=1),
          cfg('tie', 'ci', openmp=True, threads=16, reorder=1, steps=1)]
-    return dedup(C + T + gtvf_cfgs(rng, 4))
+    return dedup(C + T + gtvf_cfgs(rng, 4) + rarefy_cfgs(rng))
 
 
 REORDERABLE = [nn for nn in NNPS_ALL if nn not in NO_REORDER]
@@ -923,6 +1120,38 @@ def gtvf_cfgs(rng, nrandom):
                      openmp=omp, threads=rng.choice([2, 3, 5, 8]) if omp else 1,
                      reorder=rng.randint(2, GTVF_STEPS // 2),
                      sort=rng.random() < 0.5, steps=S))
+    return C
+
+
+def _rand_opts(rng, p, nn, S, sort=None):
+    omp = rng.random() < 0.5
+    ro = rng.choice([None, None, 2, 3]) if nn in REORDERABLE else None
+    return cfg(p, nn, cache=rng.random() < 0.5, openmp=omp,
+               threads=rng.choice([2, 3, 5, 8]) if omp else 1, reorder=ro,
+               sort=(rng.random() < 0.5) if sort is None else sort, steps=S)
+
+
+def rarefy_cfgs(rng, every=False):
+    """adaptive h in update_nnps=True groups of a non-periodic problem:
+    binning algorithms (cell size = radius_scale*max h) against the octrees
+    (no cell size) and against each other.  quick: ll, tree, comp_tree, one
+    more binning algorithm and one stratified one; `every`: all of them"""
+    p, S = 'rarefy', RAREFY_STEPS
+    C = [base_cfg(p, S),                                    # tree, plain
+         cfg(p, 'tree', sort=True, steps=S),                # sorted reference
+         cfg(p, 'll', steps=S),
+         cfg(p, 'll', sort=True, steps=S)]
+    if every:
+        for nn in NNPS_ALL:
+            C.append(cfg(p, nn, steps=S))
+            C.append(cfg(p, nn, sort=True, steps=S))
+            C.append(_rand_opts(rng, p, nn, S))
+            C.append(_rand_opts(rng, p, nn, S))
+    else:
+        C.append(_rand_opts(rng, p, 'comp_tree', S))
+        C.append(_rand_opts(rng, p, rng.choice(GRID_BASED[1:]), S))
+        C.append(_rand_opts(rng, p, rng.choice(GRID_BASED), S))
+        C.append(_rand_opts(rng, p, rng.choice(STRATIFIED), S, sort=True))
     return C
 
 
@@ -969,6 +1198,7 @@ def thorough_cfgs(rng):
                              threads=rng.randint(2, 16) if omp else 1,
                              reorder=ro, sort=srt, steps=GTVF_STEPS))
     C += gtvf_cfgs(rng, 12)
+    C += rarefy_cfgs(rng, every=True)
     T = []
     for nn in NNPS_ALL:
         if nn in ZORDER_FAMILY:
@@ -1008,6 +1238,7 @@ def search_cfgs(rng, aimed=()):
                 C.append(cfg('gtvf', t['nnps'], t['cache'], t['openmp'],
                              t['threads'], ro, t['sort'], steps=GTVF_STEPS))
     C += gtvf_cfgs(rng, 8)
+    C += rarefy_cfgs(rng, every=True)
     return dedup(C)
 
 
@@ -1019,10 +1250,10 @@ def replay(a):
     if 'baseline' in case:
         cs = [case['baseline'], case['cfg']]
     else:
-        cs = [cfg(case['cfg']['problem'], steps=case['cfg']['steps']),
+        cs = [base_cfg(case['cfg']['problem'], case['cfg']['steps']),
               case['cfg']]
     # judge() needs the plain baseline of the problem as well
-    b0 = cfg(cs[1]['problem'], steps=cs[1]['steps'])
+    b0 = base_cfg(cs[1]['problem'], cs[1]['steps'])
     cs = dedup([b0] + cs)
     res = run_all(cs, seed, a.work)
     judge(res, R, seed)
@@ -1047,6 +1278,11 @@ def main():
         'a repeat; tie cases = one per destination loop of the fold equation')
     rng = random.Random(a.seed * 7919 + 5)
     cfgs = quick_cfgs(rng) if a.tier == 'quick' else thorough_cfgs(rng)
+    if os.environ.get('C05_ONLY'):
+        # debugging aid (never set by ./check): restrict to some problems
+        only = os.environ['C05_ONLY'].split(',')
+        cfgs = [c for c in cfgs if c['problem'] in only]
+        R.note('C05_ONLY=%s: %d configurations' % (only, len(cfgs)))
     # is OpenMP really there?
     try:
         import pysph.base.omp_threads as _o  # noqa: F401
